@@ -62,10 +62,12 @@ const (
 
 // _refKey identifies an encoded object, list or map: objects are the same only if the address and
 // the type are the same (a slice starts at the address of its first element, a struct at the
-// address of its first field, and every nil or empty slice at the same address)
+// address of its first field, and every nil or empty slice at the same address); two slices are
+// the same list only if they also have the same length (s[:2] and s start at the same address)
 type _refKey struct {
 	addr unsafe.Pointer
 	typ  reflect.Type
+	len  int
 }
 
 func refTag(tag byte) bool {
@@ -85,6 +87,7 @@ func (e *Encoder) checkEncodeRefMap(v reflect.Value) (int, bool) {
 	var (
 		typ  reflect.Type
 		addr unsafe.Pointer
+		size int
 	)
 
 	if v.Kind() == reflect.Ptr {
@@ -95,20 +98,26 @@ func (e *Encoder) checkEncodeRefMap(v reflect.Value) (int, bool) {
 		kind := v.Elem().Kind()
 		if kind == reflect.Slice || kind == reflect.Map {
 			addr = unsafe.Pointer(v.Elem().Pointer())
+			if kind == reflect.Slice {
+				size = v.Elem().Len()
+			}
 		} else {
 			addr = unsafe.Pointer(v.Pointer())
 		}
 	} else {
 		typ = v.Type()
 		switch v.Kind() {
-		case reflect.Slice, reflect.Map:
+		case reflect.Slice:
+			addr = unsafe.Pointer(v.Pointer())
+			size = v.Len()
+		case reflect.Map:
 			addr = unsafe.Pointer(v.Pointer())
 		default:
 			addr = unsafe.Pointer(PackPtr(v).Pointer())
 		}
 	}
 
-	key := _refKey{addr, typ}
+	key := _refKey{addr, typ, size}
 	if index, ok := e.refMap[key]; ok {
 		// fmt.Printf("-----> find ref: %d, %p, %v, %v\n", index, addr, typ, v)
 		return index, ok
